@@ -145,6 +145,12 @@ func vNewSim(t *testing.T, hosts []string, cascade map[string]string, cfgMod fun
 			arg = strings.Join(op.Removed, ",")
 		}
 		mut := op.Op == "Create" || op.Op == "Delete" || op.Op == "SetData" || op.Op == "Expire" || op.Op == "Close" || op.Op == "ToolSet" || op.Op == "ToolDelete"
+		if op.Path == vNS+"/"+pathMasterNode && op.Res == "ok" && (op.Op == "Create" || op.Op == "SetData" || op.Op == "ToolSet") {
+			var m string
+			if json.Unmarshal([]byte(op.Data), &m) == nil {
+				s.lastMaster.Store(m)
+			}
+		}
 		s.observe(s.logEv(verifsim.TraceEvent{K: "zk", By: op.Client, At: strings.TrimPrefix(op.Path, vNS+"/"), Op: op.Op, Arg: arg, Res: op.Res, Mut: mut && op.Res == "ok", Val: val}), false)
 
 	}
@@ -483,6 +489,11 @@ func (s *vSim) round(world func()) {
 		}
 	}
 	time.Sleep(time.Second)
+}
+
+func (s *vSim) lastMasterStr() string {
+	m, _ := s.lastMaster.Load().(string)
+	return m
 }
 
 // ---- ground truth helpers -------------------------------------------------------
